@@ -12,6 +12,7 @@ import bisect
 import math
 import random
 import re
+import time
 
 from common import Check, coq_z, coq_list
 
@@ -218,9 +219,33 @@ def gen_histories(c, tier):
 
 
 # --------------------------------------------------------------------------- running
-def run_pair(c, binary, lines, timeout=3000):
+def run_impl(c, binary, lines, timeout=1500):
+    """Run the harness; a history on which the implementation hangs, exhausts memory or crashes ends the
+    process (watchdog in harness/c01) — it is recorded as such and the run resumes with the next history."""
+    out, hangs = [], 0
+    while len(out) < len(lines):
+        rest = lines[len(out):]
+        try:
+            rc, impl, err = c.run_impl(binary, ["c01"], "\n".join(rest) + "\n", timeout=timeout)
+        except Exception as e:          # subprocess timeout
+            rc, impl, err = -1, [], str(e)
+        out += impl[:len(rest)]
+        if len(out) >= len(lines):
+            break
+        hangs += 1
+        out.append("<hang-or-crash rc=%s %s>" % (rc, err[-200:].replace("\n", " ").replace(";", ",").replace("|", "/")))
+        if hangs >= 6:
+            out += ["<skipped after 6 hangs>"] * (len(lines) - len(out))
+    return out
+
+
+def is_abort(rec0):
+    return rec0 == "panic" or rec0.startswith("<")
+
+
+def run_pair(c, binary, lines, timeout=1500):
     text = "\n".join(lines) + "\n"
-    rc, impl, err = c.run_impl(binary, ["c01"], text, timeout=timeout)
+    impl = run_impl(c, binary, lines, timeout)
     model = c.run_model("rb", text, timeout=timeout)
     cov = {}
     if model and model[-1].startswith("#cov"):
@@ -228,8 +253,6 @@ def run_pair(c, binary, lines, timeout=3000):
             k, v = kv.split("=")
             cov[k] = int(v)
         model = model[:-1]
-    while len(impl) < len(lines):
-        impl.append("<no output: harness exited rc=%s %s>" % (rc, err[-300:].replace("\n", " ")))
     return impl, model, cov
 
 
@@ -387,7 +410,7 @@ def walk_history(cont, cmpn, ops, impl_line):
     recs = records(impl_line)
     n_before = 0
     for i, rec in enumerate(recs):
-        if rec[0] == "panic" or len(rec) < 8:
+        if is_abort(rec[0]) or len(rec) < 8:
             return None
         reasons = []
         if rec[4] != "~":
@@ -408,16 +431,17 @@ def walk_history(cont, cmpn, ops, impl_line):
 
 
 # --------------------------------------------------------------------------- minimisation
-def minimise(ops, still_fails, budget=260):
+def minimise(ops, still_fails, budget=260, seconds=40):
     """delta-debugging on the op list; still_fails(ops) re-runs the history."""
     ops = list(ops)
     spent = 0
     n = 2
-    while len(ops) >= 2 and spent < budget:
+    t0 = time.time()
+    while len(ops) >= 2 and spent < budget and time.time() - t0 < seconds:
         chunk = max(1, len(ops) // n)
         reduced = False
         i = 0
-        while i < len(ops) and spent < budget:
+        while i < len(ops) and spent < budget and time.time() - t0 < seconds:
             cand = ops[:i] + ops[i + chunk:]
             spent += 1
             if cand and still_fails(cand):
@@ -556,7 +580,7 @@ def run(pid, tier, on_disagreement, fields, walk_all=False):
     c = Check(pid, tier)
     c.proof_layer()
     c.ensure_modelrun()
-    binary, log = c.build_harness()
+    binary, log = c.build_harness(pkgs=["c01"])
     if binary is None:
         c.report("build", "harness does not build against the repository", {"kind": "build", "log": log[-3000:]},
                  found_input=False)
